@@ -13,6 +13,7 @@ import (
 	"fmt"
 	"runtime"
 	"strings"
+	"sync/atomic"
 	"sync"
 	"time"
 
@@ -417,10 +418,31 @@ func c08Gen(r *Rng) c08Case {
 }
 
 // c08Real: real ticker, slow reporter, concurrent recording, Close.
-func c08Real(seed uint64, interval time.Duration) string {
+// hold: the real report loop is held between its check of the closed flag and its pass (yield 62)
+// until the Close caller has returned or is seen waiting for the loop goroutine (runtime status:
+// sync.WaitGroup.Wait) - the schedule "Close arrives exactly then", made deterministic.
+func c08Real(seed uint64, interval time.Duration, hold bool) string {
 	log := &Log{}
 	rep := &RecCloser{RecReporter: RecReporter{L: log, Caps: caps{true, true}}}
 	rep.OnCall = func(k int) { time.Sleep(150 * time.Microsecond) }
+	var at62 = make(chan struct{})
+	var held, closeReturned int32
+	var closerGid uint64
+	if hold {
+		tally.VerifSetYield(func(p int) {
+			if p != 62 || !atomic.CompareAndSwapInt32(&held, 0, 1) {
+				return
+			}
+			close(at62)
+			for atomic.LoadInt32(&closeReturned) == 0 {
+				if g := atomic.LoadUint64(&closerGid); g != 0 && strings.Contains(goroutineStack(g), "sync.(*WaitGroup).Wait") {
+					break
+				}
+				time.Sleep(100 * time.Microsecond)
+			}
+		})
+		defer setYield(nil)
+	}
 	root, closer := tally.NewRootScope(tally.ScopeOptions{Reporter: rep, OmitCardinalityMetrics: true}, interval)
 	const nobj = 4
 	ctrs := make([]tally.Counter, nobj)
@@ -457,8 +479,23 @@ func c08Real(seed uint64, interval time.Duration) string {
 	close(stop)
 	wg.Wait()
 	snap = applied
-	closer.Close()
+	if hold {
+		<-at62 // the loop goroutine has passed its check of the closed flag and is about to run a pass
+		cd := make(chan struct{})
+		go func() {
+			atomic.StoreUint64(&closerGid, gid())
+			closer.Close()
+			close(cd)
+		}()
+		<-cd
+	} else {
+		closer.Close()
+	}
 	n1 := log.Len()
+	atomic.StoreInt32(&closeReturned, 1)
+	if st := strings.Join(allStacksSplit(), "\n\n"); strings.Contains(st, "tally/v4.(*scope).reportLoop") {
+		return "real ticker: the reportLoop goroutine has not ended when Close returns"
+	}
 	var got [nobj]int64
 	sawFlushAfter := false
 	evs := log.Snapshot()
@@ -485,6 +522,9 @@ func c08Real(seed uint64, interval time.Duration) string {
 		return "real ticker: no Flush after the last delivery when Close returned"
 	}
 	time.Sleep(3 * time.Millisecond)
+	if hold {
+		time.Sleep(5 * time.Millisecond)
+	}
 	if n2 := log.Len(); n2 != n1 {
 		return fmt.Sprintf("real ticker: %d reporter calls after Close had returned", n2-n1)
 	}
@@ -556,7 +596,14 @@ func init() {
 			}
 			if len(c.Threads) == 0 {
 				// a real-ticker replay: {"nobj":0,...}
-				if f := c08Real(1, 300*time.Microsecond); f != "" {
+				f := c08Real(1, 300*time.Microsecond, false)
+				for k := 0; k < 20 && f == ""; k++ {
+					f = c08Real(uint64(k), 300*time.Microsecond, true)
+				}
+				if f == "" {
+					f = c08After(true, true, true)
+				}
+				if f != "" {
 					ctx.Case(c, "", "real-ticker", "")
 					ctx.Fail("close_is_a_complete_idempotent_barrier", f, c, nil)
 				}
@@ -581,7 +628,7 @@ func init() {
 		nreal := ctx.N(40, 1500)
 		fails := 0
 		for k := 0; k < nreal; k++ {
-			f := c08Real(ctx.R.U64(), time.Duration(200+ctx.R.Intn(400))*time.Microsecond)
+			f := c08Real(ctx.R.U64(), time.Duration(200+ctx.R.Intn(400))*time.Microsecond, k%2 == 1)
 			ctx.Res.Histogram["real-ticker-shutdowns"]++
 			ctx.Res.Evaluations++
 			if f != "" {
@@ -592,5 +639,110 @@ func init() {
 			}
 		}
 		ctx.Res.Extra["real_ticker_failures"] = fails
+		// after Close has returned: further Close calls, scopes obtained afterwards (every derivation,
+		// including the ones that lead back to the root's own identity), recording on old handles
+		for k := 0; k < 8; k++ {
+			cs := map[string]interface{}{"after_close": true, "cached": k&1 == 1, "closer": k&2 == 2, "interval": k&4 == 4}
+			f := c08After(k&1 == 1, k&2 == 2, k&4 == 4)
+			ctx.Case(cs, "", "after-close", "")
+			if f != "" {
+				ctx.Fail("after_close_everything_is_inert", f, cs, nil)
+			}
+		}
 	}
+}
+
+// c08After: a root with some scopes and metrics is closed; afterwards scopes are obtained by every kind
+// of derivation and used, old handles are used, Close is called again: nothing may panic and the
+// reporter must not be called any more (timers recorded on OLD handles excepted: they are forwarded
+// directly and only have to be harmless).
+func c08After(cached, closerFlavour, withInterval bool) (fail string) {
+	log := &Log{}
+	opts := tally.ScopeOptions{OmitCardinalityMetrics: true, Tags: map[string]string{"env": "t"}, Prefix: "p"}
+	switch {
+	case cached && closerFlavour:
+		opts.CachedReporter = &RecCachedCloser{RecCached: RecCached{L: log, Caps: caps{true, true}}}
+	case cached:
+		opts.CachedReporter = &RecCached{L: log, Caps: caps{true, true}}
+	case closerFlavour:
+		opts.Reporter = &RecCloser{RecReporter: RecReporter{L: log, Caps: caps{true, true}}}
+	default:
+		opts.Reporter = &RecReporter{L: log, Caps: caps{true, true}}
+	}
+	var interval time.Duration
+	if withInterval {
+		interval = 300 * time.Microsecond
+	}
+	root, closer := tally.NewRootScope(opts, interval)
+	defer func() {
+		if p := recover(); p != nil {
+			fail = fmt.Sprintf("panic after Close: %v", p)
+		}
+	}()
+	oldSub := root.SubScope("old")
+	oldTag := root.Tagged(map[string]string{"k": "v"})
+	oc, og, oh := oldSub.Counter("c"), oldTag.Gauge("g"), root.Histogram("h", tally.ValueBuckets{1, 2})
+	ot := oldSub.Timer("t")
+	oc.Inc(1)
+	og.Update(2)
+	oh.RecordValue(1.5)
+	if err := closer.Close(); err != nil {
+		return fmt.Sprintf("Close returned %v", err)
+	}
+	n1 := log.Len()
+	use := func(what string, s tally.Scope) string {
+		s.Counter("c2").Inc(1)
+		s.Gauge("g2").Update(1)
+		s.Timer("t2").Record(time.Millisecond)
+		s.Timer("t3").Start().Stop()
+		s.Histogram("h2", tally.DurationBuckets{time.Second}).RecordDuration(time.Millisecond)
+		s.Histogram("h3", nil).RecordValue(3)
+		if n := log.Len(); n != n1 {
+			ev := log.Snapshot()[n1]
+			return fmt.Sprintf("a scope obtained after Close by %s is not inert: using it called the reporter (%v)", what, ev)
+		}
+		return ""
+	}
+	derivs := []struct {
+		what string
+		f    func() tally.Scope
+	}{
+		{"root.Tagged(nil)", func() tally.Scope { return root.Tagged(nil) }},
+		{"root.Tagged(map[string]string{})", func() tally.Scope { return root.Tagged(map[string]string{}) }},
+		{"root.Tagged(the root's own tags)", func() tally.Scope { return root.Tagged(map[string]string{"env": "t"}) }},
+		{"root.Tagged({a:b})", func() tally.Scope { return root.Tagged(map[string]string{"a": "b"}) }},
+		{"root.Tagged({k:v}) (an identity that existed before)", func() tally.Scope { return root.Tagged(map[string]string{"k": "v"}) }},
+		{`root.SubScope("")`, func() tally.Scope { return root.SubScope("") }},
+		{`root.SubScope("new")`, func() tally.Scope { return root.SubScope("new") }},
+		{`root.SubScope("old") (an identity that existed before)`, func() tally.Scope { return root.SubScope("old") }},
+		{"oldSub.Tagged(nil)", func() tally.Scope { return oldSub.Tagged(nil) }},
+		{`oldSub.SubScope("x")`, func() tally.Scope { return oldSub.SubScope("x") }},
+		{"oldTag.Tagged({k:v})", func() tally.Scope { return oldTag.Tagged(map[string]string{"k": "v"}) }},
+		{`root.SubScope("a").Tagged(nil).SubScope("")`, func() tally.Scope { return root.SubScope("a").Tagged(nil).SubScope("") }},
+	}
+	for _, d := range derivs {
+		if f := use(d.what, d.f()); f != "" {
+			return f
+		}
+	}
+	// old handles: harmless
+	oc.Inc(5)
+	og.Update(9)
+	oh.RecordValue(0.5)
+	if err := closer.Close(); err != nil {
+		return fmt.Sprintf("a further Close returned %v, expected nil", err)
+	}
+	if cl, ok := root.(interface{ Close() error }); ok {
+		if err := cl.Close(); err != nil {
+			return fmt.Sprintf("a further Close returned %v, expected nil", err)
+		}
+	}
+	if withInterval {
+		time.Sleep(2 * time.Millisecond)
+	}
+	if n := log.Len(); n != n1 {
+		return fmt.Sprintf("after Close had returned the reporter was called again (%v) although only old handles were used and Close was repeated", log.Snapshot()[n1])
+	}
+	ot.Record(time.Millisecond) // forwarded directly; must not panic
+	return ""
 }
